@@ -12,9 +12,10 @@ Init == l = 1
 Judge(e) ==
   LET say(ok, why) == IF ok THEN TRUE ELSE (PrintT(<<"BAD", l, why>>) /\ FALSE)
   IN IF e.ev = "fault"
-     THEN /\ say(e.returned \/ ~e.blocked, "render-call-blocked-forever-after-sink-fault")
-          \* not returned and no blocked send in the dump: inconclusive, not a verdict
-          /\ (IF e.returned \/ e.blocked THEN TRUE ELSE PrintT(<<"DRIFT", l>>))
+     THEN /\ say(e.returned \/ ~e.blocked, "render-call-blocked-forever")
+          /\ say(e.returned \/ ~e.panicked, "render-call-panicked")
+          \* not returned, no blocked goroutine in the dump, no panic: inconclusive, not a verdict
+          /\ (IF e.returned \/ e.blocked \/ e.panicked THEN TRUE ELSE PrintT(<<"DRIFT", l>>))
      ELSE \* goroutines after k renders bounded by a constant independent of k:
           \* what is alive after the first render (pool, runtime) plus a small slack
           say(e.live <= e.first + 2, "goroutines-grow-with-the-number-of-renders")
